@@ -25,7 +25,10 @@ TAG = "TRANSLATORS:"
 ENCODINGS = [("ascii", ""), ("utf-8", "\u00e9"), ("utf-8", "\u0416"), ("cp1251", "\u0416"), ("latin-1", "\u00e9")]
 
 
-def _item(eid, kind, text, msgs=(), ls=False, group="pre"):
+TAGS = {"A": "TRANSLATORS:", "B": "NOTE:"}
+
+
+def _item(eid, kind, text, msgs=(), ls=False, group="pre", tag=None):
     """msgs: one (fn, key, own[, plural]) per F marker in `text`, in order."""
     clean = lc.strip_markers(text)
     offs = []
@@ -37,6 +40,7 @@ def _item(eid, kind, text, msgs=(), ls=False, group="pre"):
     if len(offs) != len(msgs):
         raise MachineryError("catalog entry %s: %d markers, %d messages" % (eid, len(offs), len(msgs)))
     return {"id": eid, "kind": kind, "text": text, "w": [len(x) for x in clean.split("\n")], "ls": bool(ls), "group": group,
+            "tag": tag or ("A" if kind == "tc" else "none"),
             "msgs": [{"off": o, "fn": m[0], "m": m[1], "own": bool(m[2])} for o, m in zip(offs, msgs)],
             "plural": {m[1] for m in msgs if len(m) > 3 and m[3]}}
 
@@ -65,6 +69,7 @@ def build_catalog(rng):
     pre("tc", "tc", "## %s c@\n" % TAG, ls=True)
     pre("tc-ind", "tc", "%s##   %s c@ \n" % (I or " ", TAG), ls=True)
     pre("uc", "uc", "## plain c@\n", ls=True)
+    E.append(_item("tc-b", "tc", "## %s c@\n" % TAGS["B"], ls=True, group="life", tag="B"))    # tagged only when tag B is configured
     pre("uc-call", "uc", "## " + M("q") + "\n", msgs=[("_", "q", False)], ls=True)
     pre("blank", "blank", "\n")
     pre("text", "text", W + "\n")
@@ -146,7 +151,7 @@ def build_catalog(rng):
 
 
 def catalog_module(E):
-    items = [core.to_tla({"id": e["id"], "kind": e["kind"], "w": e["w"], "ls": e["ls"], "msgs": e["msgs"]}) for e in E]
+    items = [core.to_tla({"id": e["id"], "kind": e["kind"], "tag": e["tag"], "w": e["w"], "ls": e["ls"], "msgs": e["msgs"]}) for e in E]
     return ("---- MODULE ExtractCat ----\n(* generated by the harness: measured geometry of this run's item texts *)\n"
             "XCatDef == <<\n  " + ",\n  ".join(items) + " >>\n====\n")
 
@@ -155,12 +160,13 @@ CODECS = {"ascii": "", "utf-8": "\u0416\u00e9", "cp1251": "\u0416", "koi8-r": "\
 DECLS = ["magic", "option", "both", "neither"]
 
 
-def cfg(pre, last, maxpre, nlkinds, magic=1, decls=("option",), encs=("any",), mcs=("any",)):
+def cfg(pre, last, maxpre, nlkinds, magic=1, decls=("option",), encs=("any",), mcs=("any",), cfgs=(("A",),), stages=1):
     q = lambda xs: ", ".join('"%s"' % x for x in xs)     # noqa
-    return ("CONSTANTS\n  Pre = {%s}\n  Last = {%s}\n  MaxPre = %d\n  NLKinds = {%s}\n  Decls = {%s}\n  Encs = {%s}\n  MsgClasses = {%s}\n  Magic = %d\n"
+    return ("CONSTANTS\n  Pre = {%s}\n  Last = {%s}\n  MaxPre = %d\n  NLKinds = {%s}\n  Decls = {%s}\n  Encs = {%s}\n  MsgClasses = {%s}\n  Magic = %d\n  Cfgs = {%s}\n  MaxStages = %d\n"
             "SPECIFICATION Spec\nCHECK_DEADLOCK FALSE\n"
             "INVARIANT EachCallOnceAtItsLine\nINVARIANT NothingFromDecoys\nINVARIANT CommentsAttachExactly\n"
-            % (", ".join(map(str, pre)), ", ".join(map(str, last)), maxpre, q(nlkinds), q(decls), q(encs), q(mcs), magic))
+            % (", ".join(map(str, pre)), ", ".join(map(str, last)), maxpre, q(nlkinds), q(decls), q(encs), q(mcs), magic,
+               ", ".join("{" + q(c) + "}" for c in cfgs), stages))
 
 
 # --------------------------------------------------------------------------- concretise / expected
@@ -197,12 +203,12 @@ class _Opts:
     comment_tag = True
 
 
-def run_babel(text, enc, declare_option=True):
+def run_babel(text, enc, declare_option=True, tags=None):
     from mako.ext.babelplugin import extract
     try:
         got = []
         opts = {"encoding": enc} if declare_option else {}
-        for (line, fn, msgs, cm) in extract(io.BytesIO(text.encode(enc)), ["_", "gettext", "ngettext", "tr"], [TAG], opts):
+        for (line, fn, msgs, cm) in extract(io.BytesIO(text.encode(enc)), ["_", "gettext", "ngettext", "tr"], [TAG] if tags is None else list(tags), opts):
             if isinstance(msgs, str):
                 msgs = [msgs]
             got.append({"line": line, "fn": fn, "msgs": [m for m in msgs if isinstance(m, str)], "cm": list(cm)})
@@ -214,15 +220,21 @@ def run_babel(text, enc, declare_option=True):
 _lingua_ready = []
 
 
-def run_lingua(text):
+def lingua_plugin(tags):
+    """A LinguaMakoExtractor object constructed with the given tags (None: constructed without configuration)."""
     from mako.ext.linguaplugin import LinguaMakoExtractor
     if not _lingua_ready:
         from lingua.extractors import register_extractors
         register_extractors()
         _lingua_ready.append(1)
+    return LinguaMakoExtractor({"comment-tags": " ".join(tags)}) if tags is not None else LinguaMakoExtractor()
+
+
+def run_lingua(text, plugin=None):
     try:
         got = []
-        for m in LinguaMakoExtractor({"comment-tags": TAG})("x.mako", _Opts(), io.StringIO(text)):
+        plugin = plugin or lingua_plugin([TAG])
+        for m in plugin("x.mako", _Opts(), io.StringIO(text)):
             got.append({"line": m.location[1], "fn": None, "msgs": [m.msgid] + ([m.msgid_plural] if m.msgid_plural else []),
                         "cm": (m.comment or "").strip()})
         return got
@@ -342,7 +354,7 @@ def check(run):
         n0 = len(seen)
         for c in res.json_lines():
             if isinstance(c, dict) and "out" in c:
-                key = (tuple(c["seq"]), c["nl"], tuple(sorted(c.get("src", {}).items())))
+                key = (tuple(c["seq"]), c["nl"], tuple(sorted(c.get("src", {}).items())), tuple(tuple(sorted(h)) for h in c.get("hist", [])))
                 if key not in seen:
                     seen.add(key)
                     cases.append(c)
@@ -386,6 +398,23 @@ def check(run):
         run.spec_violation(res)
         return {"rule": "model violated", "exhaustive": False}
     n3 += take(res)
+    # one extractor object over time: constructed with a configuration (possibly none), update_config, extract, ...
+    lpre = [byid[x] for x in ("tc", "tc-b", "uc", "text")]
+    llast = [byid[x] for x in ("expr", "block2", "defsig")]
+    allcfg = ((), ("A",), ("B",), ("A", "B"))
+    res = run.tlc("MC_Extract", cfg(lpre, llast, 2, ["lf"], magic, cfgs=allcfg, stages=3), name="mc-lifetime", workers=workers,
+                  coverage=True, extra_files=files, timeout=1500)
+    if res.violated:
+        run.spec_violation(res)
+        return {"rule": "model violated", "exhaustive": False}
+    if not res.coverage.get("Configure", [0, 0])[1]:
+        raise MachineryError("vacuous: Configure never taken")
+    life = {}
+    for c in res.json_lines():
+        if isinstance(c, dict) and "hist" in c and "out" in c:
+            life.setdefault((tuple(c["seq"]), tuple(tuple(sorted(h)) for h in c["hist"])), c)
+    if len(life) < 1000:
+        raise MachineryError("lifetime instance exported only %d stages" % len(life))
     got_src = {(c["src"]["decl"], c["src"]["enc"], c["src"]["mc"]) for c in cases if c["src"]["enc"] != "any"}
     if len(got_src) != 36:
         raise MachineryError("declaration instance covers %d of 36 (declaration, codec, message class) triples" % len(got_src))
@@ -433,6 +462,36 @@ def check(run):
                                                      "items": [E[i - 1]["id"] for i in case["seq"]], "nl": case["nl"]})
         if ci < 3:
             run.sample({"items": [E[i - 1]["id"] for i in case["seq"]], "template": compose(E, case["seq"], nl, ""), "expected": expected(E, case, "")})
+    # ---- histories over ONE extractor object: what an extraction reports depends only on the configuration in force
+    n_hist = 0
+    for (seq, hist) in sorted(life):
+        if len(hist) != 3 or int(hashlib.sha1(("%d:h:%s:%s" % (run.seed, seq, hist)).encode()).hexdigest()[:8], 16) % 4:
+            continue
+        n_hist += 1
+        text = compose(E, list(seq), "\n", "")
+        plugin = None
+        for st in range(3):
+            stage = life[(seq, hist[:st + 1])]
+            tags = [TAGS[t] for t in hist[st]]
+            exp = expected(E, stage, "")
+            try:
+                if st == 0:
+                    plugin = lingua_plugin(tags if tags or len(str(seq)) % 2 else None)     # no tags: with an empty config or with none at all
+                else:
+                    plugin.update_config(**{"comment-tags": " ".join(tags)})
+                got_l = run_lingua(text, plugin)
+            except Exception as e:  # noqa
+                got_l = "exc:" + type(e).__name__
+            for who, got, is_l in (("lingua", got_l, True), ("babel", run_babel(text, "ascii", True, tags=tags), False)):
+                n += 1
+                d = compare(E, stage, exp, got, lingua=is_l)
+                if d:
+                    sig = "%s:%s:%s" % (who, d[0], d[1])
+                    if sig not in mism:
+                        sig += ":after-update_config" if st else ":constructed-with-%s" % ("tags" if tags else "no-tags")
+                    mism.setdefault(sig, []).append({"template": text, "extractor": who, "history_of_configured_tags": [list(h) for h in hist[:st + 1]],
+                                                     "expected": exp, "observed": got, "items": [E[i - 1]["id"] for i in seq], "nl": "lf", "encoding": "ascii"})
+    run.extra["extractor_histories"] = n_hist
     run.traces += n
     run.extra["extractions_compared"] = n
     for sig in sorted(mism):
@@ -477,6 +536,8 @@ def check(run):
         "{ASCII, non-ASCII in repertoire} messages: all 36 correct declarations every run; the other instances declare by option",
         "not generated (property silent): blank lines between two ## lines; a message construct not at the start of its line right after a ## line; "
         "Python '# TRANSLATORS:' comments inside <% %> blocks; a Python string beginning on a later line of its tag",
+        "extractor lifetime: histories construct(c0) / update_config(c1) / update_config(c2) over one LinguaMakoExtractor object, the template extracted after "
+        "each step, c in {no tag, A, B, A+B}; the Babel entry point is called with the same tag lists; a hashed quarter of the 64 histories per template each run",
         "messages are matched by their (unique) text; order of the reported tuples is not compared",
     ]
     return {"rule": "TLC enumerates item sequences (<=%d items of every kind [quick 2; thorough also 3 over a 9-kind subset], <=%d of the comment-window kinds, before the last construct) x {LF,CRLF}, "
